@@ -204,6 +204,11 @@ func (p *defaultPoll) handler(events []epollevent) (closed bool) {
 					n, err := iosend(operator.FD, bs, p.barriers[i].ivs, false)
 					operator.OutputAck(n)
 					if err != nil {
+						// the peer is gone for writing, but what it sent before may still be
+						// unread: input goes before the hang-up
+						if operator.Inputs != nil {
+							readall(operator, p.barriers[i])
+						}
 						p.appendHup(operator)
 						continue
 					}
